@@ -22,6 +22,7 @@ CLASSES = {
                              "ready-before-sync", "publish-before-ready", "api-call-blocks"},
     "C04": KERNEL | ORDER | {"cache-not-current", "resume-version", "frame-mistranslated", "frame-ignored", "drop-not-full", "drop-unknown",
                              "watch-version-unknown", "ctl-events-differ", "stopped-without-cause", "watch-not-reestablished"},
+    "C15": KERNEL | {"read-not-linearizable", "read-error", "returned-slice-not-owned", "list-not-snapshot", "data-race"},
     "C13": {"lists-overlap", "list-too-early", "relisting-stopped", "close-hangs", "shutdown-timeout", "goroutine-leak"},
     "C14": {"list-failure-not-fatal", "stopped-without-cause", "failure-not-reported", "ready-after-failed-first-list",
             "deliberate-close-reports-failure", "shutdown-timeout", "close-hangs"},
@@ -53,6 +54,7 @@ VARIANTS = {
     "C12": [("ctl:shutdown", 0.5), ("close", 0.2), ("mixed", 0.15), ("overflow", 0.15)],
     "C13": [("ctl:timing", 1.0)],
     "C14": [("ctl:listfail", 0.7), ("ctl:watch", 0.3)],
+    "C15": [("cachelin:readers", 1.0)],
     "C16": [("monitor", 1.0)],
 }
 # scenarios per process for the real-time controller variants (quick, thorough)
@@ -72,6 +74,9 @@ def run_tree(prop, tier, res, want, variants, budget, events=100):
         if variant.startswith("ctl:"):
             driver, variant = "ctl", variant[4:]
             per = max(1, int(CTL_PER[variant][0 if tier == "quick" else 1] * share))
+        if variant.startswith("cachelin:"):
+            driver, variant = "cachelin", "readers"
+            per = 4 if tier == "quick" else 40
         if variant == "overflow":
             # scenario idx selects the stream length {0,1,99,100,101,250,400,700}; these scenarios are long
             per = max(per // 4, 8) if tier == "thorough" else 2
@@ -81,17 +86,21 @@ def run_tree(prop, tier, res, want, variants, budget, events=100):
             argv = [h, driver, "-out", out, "-variant", variant, "-count", str(per), "-seed", str(vlib.seed() * 100 + p)]
             if driver == "tree":
                 argv += ["-events", str(events)]
+            if driver == "cachelin":
+                argv = [h, "cachelin", "-out", out, "-count", str(per), "-seed", str(vlib.seed() * 100 + p), "-ops", "300" if tier == "quick" else "1500"]
             cmds.append((argv, out + ".log", None))
     t0 = time.time()
     rcs = vlib.run_parallel(cmds, timeout=420 if tier == "quick" else 1500, maxpar=NPROC)
     nscen = 0
+    crashed = set()
     for (rc, (variant, f)) in zip(rcs, files):
         lg = open(f + ".log").read()
         if rc != 0:
             # the process died: a panic in a library goroutine.  The trace up to the crash is on disk only if flushed;
             # report the crash itself (class by property) with the stack
             if "panic" in lg or "fatal error" in lg:
-                res.classify("crash", "harness process died in variant %s: %s" % (variant, lg[-1800:]), artefact={"variant": variant})
+                res.classify("crash", "harness process died in variant %s: %s" % (variant, lg[:1800]), artefact={"variant": variant})
+                crashed.add(f)
                 continue
             raise Inconclusive("tree driver failed (rc=%s): %s" % (rc, lg[-800:]))
         m = re.search(r"scenarios=(\d+)", lg)
@@ -101,7 +110,7 @@ def run_tree(prop, tier, res, want, variants, budget, events=100):
     cfgp = os.path.join(d, "tree.cfg")
     open(cfgp, "w").write(CFG)
     tl = [(vlib.tlc_argv(d, "TreeTrace.tla", cfgp, workers=1, heap="3g", procs=2), f + ".tlc", {"VT_TRACE": f}, d)
-          for (_, f) in files if os.path.exists(f) and os.path.getsize(f) > 0]
+          for (_, f) in files if os.path.exists(f) and os.path.getsize(f) > 0 and f not in crashed]
     t0 = time.time()
     rcs = vlib.run_parallel(tl, timeout=2400, maxpar=8)
     lines = 0
@@ -131,11 +140,32 @@ def run_tree(prop, tier, res, want, variants, budget, events=100):
     return nscen, lines, samples, allcls
 
 
-@family("C03", "C04", "C05", "C06", "C07", "C08", "C10", "C11", "C12", "C13", "C14", "C16")
+def race_run(res, tier):
+    """Auxiliary monitor outside the model: the same driver under the Go race detector."""
+    sc = vlib.scratch()
+    try:
+        h = vlib.build_harness(race=True)
+    except Inconclusive as e:
+        log("race build unavailable, skipped: %s" % str(e)[:200])
+        return 0
+    out = os.path.join(sc, "race.ndjson")
+    rc, so, se = vlib.run_harness(["cachelin", "-out", out, "-count", "4" if tier == "quick" else "16", "-ops", "400", "-seed", str(vlib.seed())],
+                                  timeout=600, race=True, env={"GORACE": "halt_on_error=0 exitcode=66"})
+    n = se.count("WARNING: DATA RACE")
+    if n:
+        res.classify("data-race", se[se.index("WARNING: DATA RACE"):][:3000], artefact={"race_reports": n})
+    elif rc != 0:
+        raise Inconclusive("race-detector run failed: rc=%s %s" % (rc, se[-500:]))
+    return 1
+
+
+@family("C03", "C04", "C05", "C06", "C07", "C08", "C10", "C11", "C12", "C13", "C14", "C15", "C16")
 def check_tree(prop, tier, replay):
     res = vlib.Result(prop, tier, "model_checking")
     want = CLASSES[prop] | {"crash"}
     nscen, lines, samples, allcls = run_tree(prop, tier, res, want, VARIANTS[prop], BUDGET[tier])
+    if prop == "C15":
+        race_run(res, tier)
     res.coverage = {
         "states": lines, "transitions": lines,
         "traces_validated_against_impl": nscen,
